@@ -101,6 +101,18 @@ def c14 (op : String) (a : Array Json) : R (Option Json) := do
   | "npz_load" =>
     let m ← jMembers (← arg a 1)
     pure (some (exceptJ arrJ (load strictlyIncreasing m)))
+  | "gcxs_ctor" =>
+    -- GCXS((data, indices, indptr), shape=…, compressed_axes=…, fill_value=…): [data, indices, indptr, caxes|null, shape, fill]
+    let d ← jList jInt (← arg a 1); let i ← jList jInt (← arg a 2); let p ← jList jInt (← arg a 3)
+    let ca ← jOpt (jList jInt) (← arg a 4); let s ← jList jInt (← arg a 5); let f ← jInt (← arg a 6)
+    pure (some (exceptJ arrJ (gcxsCtor strictlyIncreasing d i p ca s f)))
+  | "coo_ctor" =>
+    -- COO(coords, data, shape, sorted=True, has_duplicates=False, fill_value=…): [coords, data, shape, fill]
+    let c ← jMat (← arg a 1); let d ← jList jInt (← arg a 2); let s ← jList jInt (← arg a 3); let f ← jInt (← arg a 4)
+    pure (some (exceptJ arrJ (cooCtor c d s f)))
+  | "npz_witnesses" =>
+    -- the concrete member sets named in Props/C14.lean's statements (data lives next to the model, not in Props)
+    pure (some (okJ (Json.mkObj [("unchecked_contents", membersJ uncheckedWitness)])))
   | "npz_roundtrip" =>
     let x ← jArr (← arg a 1)
     pure (some (exceptJ arrJ (roundtrip strictlyIncreasing x)))
